@@ -74,7 +74,7 @@ impl Prop for C07 {
             v.push(format!("fixings:{}", f));
         }
         v.push("fed-vs-nyc".into());
-        for c in ["restored:json", "restored:pickle-state", "via-NamedCal", "in-comma-list"] {
+        for c in ["restored:json", "restored:pickle-state", "via-NamedCal", "in-comma-list", "python-layer:get_calendar_by_name"] {
             v.push(c.to_string());
         }
         v.push("fixings:other-forms-of-the-calendar".to_string());
@@ -299,6 +299,22 @@ impl Prop for C07 {
                         return;
                     }
                 };
+                // the Python-facing module function get_calendar_by_name hands out the same calendar
+                match rateslib::verif::verif_py_get_calendar_by_name(name) {
+                    Ok(pc) => {
+                        ctx.eval(1);
+                        ctx.asserted(1);
+                        ctx.class("python-layer:get_calendar_by_name");
+                        if rateslib::verif::cal_holidays(&pc) != rateslib::verif::cal_holidays(&cal) || rateslib::verif::cal_week_mask(&pc) != rateslib::verif::cal_week_mask(&cal) {
+                            ctx.violation("C07|python-layer|get_calendar_by_name", json!({"name": name}));
+                            return;
+                        }
+                    }
+                    Err(()) => {
+                        ctx.violation(&format!("C07|python-layer|name-unresolved|{}", name), json!({"name": name}));
+                        return;
+                    }
+                }
                 // a built-in calendar that has been saved and loaded again (JSON, pickle state) still reports the
                 // same holidays on every date 1970-2200; so does the calendar reached through a NamedCal
                 let restored: Vec<(&str, Option<rateslib::calendars::Cal>)> = vec![
